@@ -18,8 +18,10 @@ type monEvent struct {
 	PrevWait     time.Duration `json:"prevWait,omitempty"`
 	Reopen       bool          `json:"reopen"`
 	Wait         time.Duration `json:"wait"`
-	Ch           <-chan error  `json:"-"`         // reopenSucceeded: Closed() of the new session, taken inside the callback
-	OpenCalls    int           `json:"openCalls"` // Open calls the stream had seen when the callback ran
+	Ch           <-chan error  `json:"-"`                           // reopenSucceeded: Closed() of the new session, taken inside the callback
+	LateSampled  bool          `json:"lateClosedSampled,omitempty"` // reopenFailed: Closed() was fetched right after the failed attempt ...
+	LateReady    bool          `json:"lateClosedReady,omitempty"`   // ... and a receive on it did not block (cause or closed)
+	OpenCalls    int           `json:"openCalls"`                   // Open calls the stream had seen when the callback ran
 }
 
 // recMonitor wraps frugal.BaseFTransportMonitor and records every callback.
@@ -94,11 +96,36 @@ func (m *recMonitor) OnClosedUncleanly(cause error) (bool, time.Duration) {
 
 func (m *recMonitor) OnReopenFailed(prevAttempts uint, prevWait time.Duration) (bool, time.Duration) {
 	re, w := m.base.OnReopenFailed(prevAttempts, prevWait)
-	m.push(monEvent{Kind: "reopenFailed", PrevAttempts: prevAttempts, PrevWait: prevWait, Reopen: re, Wait: w})
+	e := monEvent{Kind: "reopenFailed", PrevAttempts: prevAttempts, PrevWait: prevWait, Reopen: re, Wait: w}
+	// A client that starts watching Closed() now - the transport is closed,
+	// the runner (this goroutine) is the only one that reopens it - must find
+	// the channel ready: the cause still buffered, or the channel closed.
+	if m.tr != nil {
+		e.LateSampled = true
+		if ch := m.tr.Closed(); ch != nil {
+			e.LateReady = chanReady(ch)
+		}
+	}
+	m.push(e)
 	return re, w
 }
 
 func (m *recMonitor) OnReopenSucceeded() {
 	m.base.OnReopenSucceeded()
 	m.push(monEvent{Kind: "reopenSucceeded"})
+}
+
+// chanReady reports whether a receive on a Closed() channel would not block,
+// without taking the cause away from whoever is watching the same channel: a
+// buffered cause shows in len(); otherwise only a closed channel is ready.
+func chanReady(ch <-chan error) bool {
+	if len(ch) > 0 {
+		return true
+	}
+	select {
+	case <-ch: // closed (a value cannot arrive here: the one send precedes the close)
+		return true
+	default:
+		return false
+	}
 }
